@@ -187,11 +187,11 @@ def check(repo: Repo, R) -> None:
         hf = repo.find_func(F_PREFIX, hname)
         if hf is None:
             raise AnalysisError(f"anchor-vanished: comparison helper {hname}")
-        threeway(repo, R, rule, hf, nname)
+        R.run(threeway, repo, R, rule, hf, nname)
     else:
         R.bad(rule, f"{F_PREFIX}::Prefixed::one-helper", ci.site, f"the six comparison operators use {sorted(h or '?' for h in helpers) or 'no'} helper(s); they must share one", "the operators can disagree with each other")
 
-    arithmetic_shape(repo, R)
+    R.run(arithmetic_shape, repo, R)
     R.floor("C14.3-comparisons-total-and-consistent", 6)
     R.floor("C14.2-int-float-conversions", 2)
 
